@@ -70,13 +70,15 @@ Do(act, i) ==
     [] act = "ReadToEnd"      -> DoRead("ReadToEnd", i, RLen(i) + 1)
     [] act = "ReadAfterClose" -> DoRead("ReadAfterClose", i, StepBytes)
     [] act = "Close"          -> Close(i)
+    [] act = "ConcClose"      -> ConcClose(i)
 
 TStep ==
   LET e == Trace[l] IN
   /\ e.t = "step" /\ ~skip
-  /\ e.act \in {"Read", "ReadToEnd", "ReadAfterClose", "Close"}
+  /\ e.act \in {"Read", "ReadToEnd", "ReadAfterClose", "Close", "ConcClose"}
   /\ Do(e.act, e.i)
   /\ LET good == /\ res'.any \/ (e.n = res'.n /\ e.err = res'.err /\ e.ok)
+                 /\ e.act = "ConcClose" => e.err2 = res'.err     \* both concurrent calls report the same outcome
                  /\ e.rb = rollbacks' /\ PoolOKP(e)
      IN /\ skip' = ~good
         /\ IF good THEN Judge(e) ELSE told' = told /\ Say("mismatch", e, "step")
